@@ -15,3 +15,10 @@ def run(ctx, rep):
     more.rule_snode_continue(mod, rep)
     from ..rules import more2
     more2.rule_slot_bound(mod, rep)
+    import re
+    from ..rules import more2
+    more2.rule_arg_names(mod, rep, lambda f: re.match(r"p[sdcz]gstrf|pxgstrf|[sdcz]PresetMap|Glu_alloc|DynamicSetMap", f.name) is not None, floor=1)
+    from ..rules import order
+    order.rule_colorder_table(mod, rep)
+    from ..rules import more2
+    more2.rule_stack_pop(mod, rep)
